@@ -267,12 +267,15 @@ def case_vgborders(rng):
         ints = [s.int_var(1, n) for _ in range(max(1, n))]
         bs = [s.bool_var() for _ in range(max(1, m))]
         gs, desc = _gs(rng, s, n, ints)
+        real_gs = gs
         if not isinstance(gs, list):
+            # `group_size=None` goes to the real wrapper as None (it must mean "no size anywhere"); a scalar is spread here
+            real_gs = None if gs is None else [gs] * n
             gs = [gs] * n if gs is not None else [None] * n
         st["gs"] = [pexpr(x) for x in gs]
         bd = graphs.bool_forms(rng, type("S", (), {"variables": bs})(), max(1, m), 0, m, allow_const=rng.random() < 0.2)
         st["bd"] = [pexpr(x) for x in bd]
-        return lambda: G.division_connected_variable_groups_with_borders(s, group_size=gs, is_border=bd, graph=mk,
+        return lambda: G.division_connected_variable_groups_with_borders(s, group_size=real_gs, is_border=bd, graph=mk,
                                                                        use_graph_primitive=prim)
     mk = graphs.mk_graph(n, edges)
     real = graphs.capture(build)
